@@ -222,6 +222,7 @@ pub fn scenario(g: &mut G, ctx: &RunCtx) -> RunReport {
         extra_headers: headers,
         read_api: 0,
         text_charset: None,
+        prelude: None,
         damage: damage.to_string(),
         cut_at: None,
     };
